@@ -2028,3 +2028,67 @@ Proof.
   inversion PU as [|? r1 g1 l' ? M1 PU']; subst; [congruence|]. cbn.
   pose proof (DL r1 l' top (member_is_rig pose R r1 s g1 M1) PU'). lia.
 Qed.
+
+(* ------------------------------------------------------------------ histories (ONE Rigs, ONE Trajectories object) *)
+Section HistoryLemmas.
+  Variable P : Type.
+  Variable comp : P -> P -> P.
+  Variable inv : P -> P.
+  Variable fuel : nat.
+  Notation hrunP := (MRigs.hrun P comp inv fuel).
+  Notation hstateP := (MRigs.hstate P comp inv fuel).
+  Notation callP := (MRigs.call P comp inv fuel).
+
+  Lemma hstate_app h1 h2 st : hstateP (h1 ++ h2) st = hstateP h2 (hstateP h1 st).
+  Proof. unfold MRigs.hstate. apply fold_left_app. Qed.
+
+  Lemma hrun_app h1 h2 st : hrunP (h1 ++ h2) st = hrunP h1 st ++ hrunP h2 (hstateP h1 st).
+  Proof.
+    revert st. induction h1 as [|s h1 IH]; intros st; cbn; [reflexivity|].
+    rewrite IH, app_assoc. reflexivity.
+  Qed.
+
+  (* whatever came before -- calls, edits of the rigs through any path, refills -- a call returns what the function
+     returns on the rigs and the trajectories as they are now *)
+  Lemma hrun_snoc_call h st k m :
+    hrunP (h ++ [SCall k m]) st = hrunP h st ++ [callP k m (fst (hstateP h st)) (snd (hstateP h st))].
+  Proof. rewrite hrun_app. cbn. reflexivity. Qed.
+
+  Lemma hrun_same_state h1 h2 st1 st2 k m :
+    hstateP h1 st1 = hstateP h2 st2 ->
+    last (hrunP (h1 ++ [SCall k m]) st1) KeyErr = last (hrunP (h2 ++ [SCall k m]) st2) KeyErr.
+  Proof. intros E. rewrite !hrun_snoc_call, !last_last, E. reflexivity. Qed.
+End HistoryLemmas.
+
+(* the inverse law at the end of any history: once the Rigs / Trajectories objects hold (R, T) satisfying the hypotheses
+   of recover_remove_pose, `rigs_remove_inplace` followed by the copying `rigs_recover` return what the two functions
+   return on (R, T) -- so every conclusion of recover_remove_pose holds for the current geometry R, whatever geometry
+   earlier calls have seen *)
+Theorem history_recover_remove (h : list (MRigs.step pose)) st (R : rigsQ) (T : trajQ) n world :
+  hstate_spec h st = (R, T) ->
+  wf2 R -> wf2 T -> one_parent R -> depth_le R n -> (n <= max_depth)%nat -> rigs_nonempty R -> rigs_validQ R ->
+  no_empty_timestamp T -> consistent R world T ->
+  exists T1 T2,
+    hrun_spec (h ++ [SCall KRemoveIp None; SCall KRecover None]) st = hrun_spec h st ++ [Done T1; Done T2] /\
+    hstate_spec (h ++ [SCall KRemoveIp None; SCall KRecover None]) st = (R, T1) /\
+    remove_spec_inplace max_depth R T = Done T1 /\ recover_spec_inplace max_depth R None T1 = Done T2 /\
+    (forall t r p, is_rig R r = true -> mounted R r = false -> lookup2 t r T = Some p ->
+                   exists p2, lookup2 t r T2 = Some p2 /\ MPose.peq p2 p) /\
+    (forall t s p1, lookup2 t s T1 = Some p1 ->
+                    exists y l p2 c, path_up R s l y /\ mounted R y = false /\ lookup2 t y T2 = Some p2 /\
+                                     compose_list (map snd l ++ [p2]) = Some c /\ MPose.peq p1 c).
+Proof.
+  intros ES WR WT OP DL Le RN RV NE C.
+  destruct (recover_remove_pose R T n world WR WT OP DL Le RN RV NE C) as (T1 & T2 & E1 & E2 & H1 & H2 & _).
+  assert (I1 : MRigs.remove_iter pose compose2 max_depth R T = Some T1) by exact (remove_done_iter _ _ _ _ _ E1).
+  assert (W1 : wf2 T1) by exact (remove_iter_wf2 pose compose2 R max_depth T T1 WT I1).
+  assert (NE1 : no_empty_timestamp T1)
+    by exact (remove_no_empty pose compose2 R WR RN (depth_no_self pose R n DL) max_depth T T1 NE I1).
+  assert (D1 : deepcopy_traj T1 = T1) by (apply deepcopy_traj_id; [apply W1 | exact NE1]).
+  exists T1, T2.
+  unfold hrun_spec, hstate_spec in *.
+  rewrite hrun_app, hstate_app, ES. cbn.
+  unfold remove_spec_inplace, recover_spec_inplace in E1, E2.
+  rewrite E1. cbn. unfold deepcopy_traj in D1. rewrite D1, E2.
+  repeat split; try reflexivity; assumption.
+Qed.
